@@ -5,6 +5,7 @@
    a spurious "child stopped" error) is the wrapper transition system of C05 instantiated with
    cache's parameters; [C04_need_eq_sent] is the fact that lets cache use it: Output() needs a
    child line exactly for the records whose line Input() forwarded. *)
+From PP Require Import Fields.FieldsDefs Fields.KeyInstances.
 From PP Require Import Base.Lines Gen.Src_wrappers Wrap.CacheDefs Wrap.CacheProofs Wrap.WrapDefs Wrap.WrapProofs Wrap.WrapPairing.
 
 (* for ALL inputs and key assignments: line i of the output is the child's answer to the first
@@ -19,11 +20,94 @@ Theorem C04_every_line_answered :
 Proof. exact cache_run_total. Qed.
 Print Assumptions C04_every_line_answered.
 
-(* the child receives precisely the first-occurrence lines, each once, in input order *)
-Theorem C04_child_gets_first_occurrences :
-  forall ls, sent ls [] = first_occurrences ls [].
-Proof. exact cache_child_input. Qed.
-Print Assumptions C04_child_gets_first_occurrences.
+(* ---- "The child receives precisely the first-occurrence lines, each once and in input order", against a
+   specification that does not mention the feeder's recursion (as C01 does for dedupe's output):
+   [sent_pairs ls []] are the forwarded lines tagged with their keys (child's stdin = their lines) ---- *)
+
+(* the child's stdin is a subsequence of the input lines: nothing invented, nothing reordered *)
+Theorem C04_child_input_is_subsequence :
+  forall ls, sent ls [] = map snd (sent_pairs ls []) /\ Subseq (sent_pairs ls []) ls /\ Subseq (sent ls []) (map snd ls).
+Proof.
+  intros ls. split; [apply sent_pairs_snd|]. split; [apply sent_pairs_subseq|].
+  rewrite sent_pairs_snd. apply Subseq_map. apply sent_pairs_subseq.
+Qed.
+Print Assumptions C04_child_input_is_subsequence.
+
+(* no key is sent twice ... *)
+Theorem C04_child_input_no_key_twice :
+  forall ls, NoDup (map fst (sent_pairs ls [])).
+Proof. intros ls. apply sent_pairs_nodup. Qed.
+Print Assumptions C04_child_input_no_key_twice.
+
+(* ... and every key of the input is sent (hence exactly once) *)
+Theorem C04_child_input_every_key_once :
+  forall ls k, In k (map fst ls) <-> In k (map fst (sent_pairs ls [])).
+Proof.
+  intros ls k. split.
+  - intros H. destruct (sent_pairs_covers ls [] k H) as [[]|H']. exact H'.
+  - intros H. apply in_map_iff in H. destruct H as (x & <- & Hx). apply in_map.
+    eapply Subseq_In; [apply sent_pairs_subseq|exact Hx].
+Qed.
+Print Assumptions C04_child_input_every_key_once.
+
+(* position-wise: the line at ANY position of the input is forwarded iff no EARLIER line has its key;
+   lines before and after are treated alike *)
+Theorem C04_line_sent_iff_key_new :
+  forall pre k l post,
+  sent_pairs (pre ++ (k, l) :: post) [] =
+    sent_pairs pre [] ++ (if mem k (map fst pre) then [] else [(k, l)]) ++ sent_pairs post (map fst (pre ++ [(k, l)])) /\
+  sent (pre ++ (k, l) :: post) [] =
+    sent pre [] ++ (if mem k (map fst pre) then [] else [l]) ++ sent post (map fst (pre ++ [(k, l)])).
+Proof.
+  intros pre k l post. split; [apply sent_pairs_position|].
+  rewrite !sent_pairs_snd, sent_pairs_position, !map_app. destruct (mem k (map fst pre)); reflexivity.
+Qed.
+Print Assumptions C04_line_sent_iff_key_new.
+
+(* each line the child gets is the FIRST input line with its key *)
+Theorem C04_sent_line_is_first_with_its_key :
+  forall ls k l, In (k, l) (sent_pairs ls []) -> first_line k ls = Some l.
+Proof. intros ls k l. apply sent_pairs_first_line. Qed.
+Print Assumptions C04_sent_line_is_first_with_its_key.
+
+(* ---- ANY child that writes one line per line read -- its answers may depend on everything it has read
+   (numbering, context): a function from its input lines to equally many answer lines.  Input line i gets
+   the answer line the child wrote for the first line with the same key: answer number
+   [index of the key among the forwarded keys], and the line sent at that index is that first line ---- *)
+Theorem C04_any_child_answer_of_first_line_with_same_key :
+  forall (child : list line -> list line) ls,
+    length (child (sent ls [])) = length (sent ls []) ->
+    cache_run_gen child ls =
+      map (fun kl => nth_error (child (sent ls [])) (index_of (fst kl) (map fst (sent_pairs ls [])))) ls /\
+    Forall (fun o => o <> None) (cache_run_gen child ls) /\
+    (forall k, In k (map fst ls) -> nth_error (sent ls []) (index_of k (map fst (sent_pairs ls []))) = first_line k ls).
+Proof.
+  intros child ls H. split; [exact (cache_run_gen_spec child ls H)|]. split; [exact (cache_run_gen_total child ls H)|].
+  intros k. apply sent_at_key_index.
+Qed.
+Print Assumptions C04_any_child_answer_of_first_line_with_same_key.
+
+(* the per-line child of the theorems above is the special case *)
+Theorem C04_per_line_child_is_special_case :
+  forall ans ls, cache_run_gen (map ans) ls = cache_run ans ls.
+Proof. reflexivity. Qed.
+
+(* "exactly the output of running the child directly" is only claimed for children whose answer depends on
+   the line alone: a child that numbers its lines answers 0,1 to a,a directly but 0,0 through cache
+   (cache shows it one line) -- inherent to caching, recorded here so that the restriction is explicit *)
+Definition numbering_child (xs : list line) : list line := map (fun i => [Z.of_nat i + 48]%Z) (seq 0 (length xs)).
+Theorem C04_stateful_child_transparency_refuted :
+  exists (child : list line -> list line) ls,
+    (forall xs, length (child xs) = length xs) /\
+    (forall k1 l1 k2 l2, In (k1, l1) ls -> In (k2, l2) ls -> (k1 = k2 <-> l1 = l2)) /\
+    cache_run_gen child ls <> map Some (child (map snd ls)).
+Proof.
+  exists numbering_child, [(1%N, [97%Z]); (1%N, [97%Z])]. split; [|split].
+  - intros xs. unfold numbering_child. rewrite map_length, seq_length. reflexivity.
+  - intros k1 l1 k2 l2 [H1|[H1|[]]] [H2|[H2|[]]]; inversion H1; inversion H2; subst; split; reflexivity.
+  - vm_compute. discriminate.
+Qed.
+Print Assumptions C04_stateful_child_transparency_refuted.
 
 (* with whole-line keys (no hash collision: equal key <-> equal line) the output is the child's own output *)
 Theorem C04_whole_line_keys_transparent :
@@ -42,16 +126,16 @@ Print Assumptions C04_need_eq_sent.
 (* under every interleaving, buffering policy and pipe capacity the hand-off never gets stuck and never
    reports a child error (C05's theorems at cache's parameters; needs cache_order = true, i.e. the fix) *)
 Theorem C04_handoff_never_stuck_no_error :
-  forall cin cout echo kpol ilen alen recs s,
+  forall cin cout echo kpol early ilen alen recs s,
     (forall j, 1 <= ilen j) -> (forall j, 1 <= alen j) -> (echo = true -> forall j, alen j = ilen j) ->
     1 <= cin -> 1 <= cout ->
-    let pr := mkP cache_order cache_poison_first cache_final_peek cin cout echo kpol in
+    let pr := mkP cache_order cache_poison_first cache_final_peek cin cout echo kpol early false false in
     reachable (wstep pr ilen alen) (w_init recs) s ->
     (wstuck pr ilen alen s = true -> wterminal s = true) /\ w_kpc s <> KErr.
 Proof.
-  intros cin cout echo kpol ilen alen recs s Hi Ha He Hci Hco pr Hr. split.
-  - exact (wrapper_no_stuck pr ilen alen Hi Ha He Hci Hco eq_refl recs s Hr).
-  - exact (wrapper_no_error pr ilen alen Hi Ha He Hci Hco eq_refl recs s Hr).
+  intros cin cout echo kpol early ilen alen recs s Hi Ha He Hci Hco pr Hr. split.
+  - refine (wrapper_no_stuck pr ilen alen Hi Ha He Hci Hco eq_refl _ _ recs s Hr); intros X; discriminate X.
+  - refine (wrapper_no_error pr ilen alen Hi Ha He Hci Hco eq_refl _ _ recs s Hr); intros X; discriminate X.
 Qed.
 Print Assumptions C04_handoff_never_stuck_no_error.
 
@@ -59,14 +143,14 @@ Print Assumptions C04_handoff_never_stuck_no_error.
    with exactly the child's answers to the lines Input() forwarded for it (here: its own line iff it was a
    first occurrence): the line counts per record are [map snd (feeder ls [])] by C04_need_eq_sent *)
 Theorem C04_entries_served_in_order_with_their_own_answers :
-  forall cin cout echo kpol ilen alen (ls : list (nat * line)) s,
+  forall cin cout echo kpol early ilen alen (ls : list (N * line)) s,
     let recs := map (fun b : bool => if b then 1 else 0) (map snd (feeder ls [])) in
-    let pr := mkP cache_order cache_poison_first cache_final_peek cin cout echo kpol in
+    let pr := mkP cache_order cache_poison_first cache_final_peek cin cout echo kpol early false false in
     reachable (wstep pr ilen alen) (w_init recs) s ->
     rev (w_emitted s) = pairs 0 (firstn (length (w_emitted s)) recs) /\
     (w_kpc s = KDone -> rev (w_emitted s) = pairs 0 recs).
 Proof.
-  intros cin cout echo kpol ilen alen ls s recs pr Hr. split.
+  intros cin cout echo kpol early ilen alen ls s recs pr Hr. split.
   - exact (emitted_prefix pr ilen alen recs s Hr).
   - exact (emitted_complete pr ilen alen recs s Hr).
 Qed.
@@ -74,31 +158,74 @@ Print Assumptions C04_entries_served_in_order_with_their_own_answers.
 
 (* ---- bytes: the full statement "exactly the output of running the child directly" ---- *)
 (* in_cr / out_cr: does the reader strip a carriage return in front of the newline (input lines /
-   the child's answers); regenerated from the source: Gen.Src_wrappers.cache_in_strip_cr, cache_out_strip_cr *)
+   the child's answers); regenerated from the source: Gen.Src_wrappers.cache_in_strip_cr, cache_out_strip_cr.
+   [keyf] is the 64-bit key of a line.  Output(): every value followed by a newline ([unrecords 10]);
+   None = the tool aborted because the child stopped early. *)
 Definition post_cr (cr : bool) (l : line) : line := if cr then strip_cr l else l.
-Definition cache_tool (ans : line -> line) (keyf : line -> nat) (in_cr out_cr : bool) (bs : list Z) : list (option line) :=
+Definition cache_tool (ans : line -> line) (keyf : line -> N) (in_cr out_cr : bool) (bs : list Z) : list (option line) :=
   cache_run (fun l => post_cr out_cr (ans l)) (map (fun l => (keyf l, l)) (records 10 in_cr bs)).
-Definition child_directly (ans : line -> line) (bs : list Z) : list (option line) :=
-  map (fun l => Some (ans l)) (records 10 false bs).
+Definition cache_tool_bytes ans keyf in_cr out_cr (bs : list Z) : option (list Z) :=
+  option_map (unrecords 10) (all_some (cache_tool ans keyf in_cr out_cr bs)).
+(* the child run directly on the same bytes: it reads the lines (no CR stripping: it sees the bytes) and
+   writes one newline-terminated answer per line read *)
+Definition child_directly_bytes (ans : line -> line) (bs : list Z) : list Z :=
+  unrecords 10 (map ans (records 10 false bs)).
 
-(* for all byte inputs, all children (line functions) and collision-free whole-line keys:
-   cache's output lines are exactly the child's own output lines *)
+Lemma all_some_map_Some {A} (xs : list A) : all_some (map Some xs) = Some xs.
+Proof. induction xs as [|x r IH]; simpl; [reflexivity|]. rewrite IH. reflexivity. Qed.
+
+(* for all byte inputs, all per-line children and every key function that does not collide ON THE LINES OF
+   THE INPUT (the only assumption; it is about the input at hand, not about all strings):
+   cache's stdout is byte for byte the child's own output *)
 Theorem C04_transparent_bytes :
-  forall ans keyf bs, (forall l1 l2, keyf l1 = keyf l2 <-> l1 = l2) ->
-    cache_tool ans keyf cache_in_strip_cr cache_out_strip_cr bs = child_directly ans bs.
+  forall ans keyf bs,
+    (forall l1 l2, In l1 (records 10 false bs) -> In l2 (records 10 false bs) -> keyf l1 = keyf l2 -> l1 = l2) ->
+    cache_tool_bytes ans keyf cache_in_strip_cr cache_out_strip_cr bs = Some (child_directly_bytes ans bs).
 Proof.
-  intros ans keyf bs Hk. unfold cache_tool, child_directly, cache_in_strip_cr, cache_out_strip_cr, post_cr.
+  intros ans keyf bs Hk. unfold cache_tool_bytes, cache_tool, child_directly_bytes, cache_in_strip_cr, cache_out_strip_cr, post_cr.
   rewrite cache_transparent.
-  - rewrite map_map. reflexivity.
+  - rewrite map_map. cbn [snd]. rewrite <- (map_map ans Some), all_some_map_Some. reflexivity.
   - intros k1 l1 k2 l2 H1 H2. apply in_map_iff in H1. apply in_map_iff in H2.
-    destruct H1 as (x1 & E1 & _). destruct H2 as (x2 & E2 & _). inversion E1; inversion E2; subst. apply Hk.
+    destruct H1 as (x1 & E1 & I1). destruct H2 as (x2 & E2 & I2). inversion E1; inversion E2; subst.
+    split; [apply Hk; assumption|intros ->; reflexivity].
 Qed.
 Print Assumptions C04_transparent_bytes.
+
+(* the same with cache's REAL default key: seed-0 MurmurHash64A of the whole line (key spec "-", Fields/
+   KeyInstances.v, C10/C14), under the explicit no-collision assumption restricted to the input's lines *)
+Definition whole_line : list range := [(0%Z, kInfiniteEnd)].
+Theorem C04_transparent_bytes_real_key :
+  forall ans d bs,
+    no_collision (cache_keyN whole_line d) whole_line d (records 10 false bs) ->
+    cache_tool_bytes ans (cache_keyN whole_line d) cache_in_strip_cr cache_out_strip_cr bs = Some (child_directly_bytes ans bs).
+Proof.
+  intros ans d bs NC. apply C04_transparent_bytes. intros l1 l2 I1 I2 E.
+  exact (proj1 (cache_whole_line_key_injective d _ l1 l2 NC I1 I2) E).
+Qed.
+Print Assumptions C04_transparent_bytes_real_key.
+
+(* closed instance, everything computed including the real keys: "a\nb\n\na\nb" (repeats, an empty line, an
+   unterminated last line) through a child that prepends '<' *)
+Example C04_transparent_bytes_computed :
+  let bs := [97; 10; 98; 10; 10; 97; 10; 98]%Z in
+  let ans := (fun l => 60 :: l)%Z in
+  cache_tool_bytes ans (cache_keyN whole_line 9) cache_in_strip_cr cache_out_strip_cr bs
+    = Some [60; 97; 10; 60; 98; 10; 60; 10; 60; 97; 10; 60; 98; 10]%Z /\
+  child_directly_bytes ans bs = [60; 97; 10; 60; 98; 10; 60; 10; 60; 97; 10; 60; 98; 10]%Z /\
+  sent (map (fun l => (cache_keyN whole_line 9 l, l)) (records 10 false bs)) [] = [[97]; [98]; []]%Z.
+Proof. vm_compute. repeat split. Qed.
+
+(* what "the child's own output" means for an unterminated last line: the child of the statement writes one
+   newline-terminated line per line read (sed, awk, tr-per-line scripts).  A byte copier (cat) leaves the
+   missing newline missing; cache always writes it: `printf a | cache cat` prints "a\n", `printf a | cat` "a". *)
+Example C04_unterminated_last_line_gets_newline :
+  cache_tool_bytes (fun l => l) (cache_keyN whole_line 9) cache_in_strip_cr cache_out_strip_cr [97]%Z = Some [97; 10]%Z.
+Proof. vm_compute. reflexivity. Qed.
 
 (* the defect that was in cache (finding F11, fixed): with the default readers (strip_cr = true on both
    sides) "a\r\n" through `cache cat` gave "a\n" *)
 Theorem C04_strip_cr_refuted :
-  exists ans bs, forall keyf, cache_tool ans keyf true true bs <> child_directly ans bs.
+  exists ans bs, forall keyf, cache_tool_bytes ans keyf true true bs <> Some (child_directly_bytes ans bs).
 Proof.
   exists (fun l => l), [97; 13; 10]%Z. intros keyf. vm_compute. discriminate.
 Qed.
@@ -106,8 +233,10 @@ Print Assumptions C04_strip_cr_refuted.
 
 (* non-vacuity: a duplicate pattern with three keys; the child sees b, a, c once each *)
 Example C04_nonvacuous :
-  let ls : list (nat * line) := [(2, [98%Z]); (1, [97%Z]); (2, [98%Z]); (3, [99%Z]); (1, [97%Z])] in
+  let ls : list (N * line) := [(2%N, [98%Z]); (1%N, [97%Z]); (2%N, [98%Z]); (3%N, [99%Z]); (1%N, [97%Z])] in
   cache_run (fun l => 60 :: l)%Z ls = map Some [[60; 98]; [60; 97]; [60; 98]; [60; 99]; [60; 97]]%Z /\
   sent ls [] = [[98]; [97]; [99]]%Z /\
-  map snd (feeder ls []) = [true; true; false; true; false].
+  sent_pairs ls [] = [(2%N, [98%Z]); (1%N, [97%Z]); (3%N, [99%Z])] /\
+  map snd (feeder ls []) = [true; true; false; true; false] /\
+  cache_run_gen numbering_child ls = map Some [[48]; [49]; [48]; [50]; [49]]%Z.
 Proof. vm_compute. repeat split. Qed.
